@@ -9,16 +9,15 @@ Every round operation returns, including a rejected restart, and a finalized rou
 un-finalized through the conditional reset."  — over any sequence and any concurrent interleaving.
 
 All statements are about `Model/Round.lean`, tied to `chaincore/round/entity.go` by `harness/cmd/c37`.
-`Cfg.code` is the code as it exists; `Cfg.repaired` differs in one step (the rejected branch of `Restart`
-unlocks before it returns).
+`Cfg.code` is the code as it exists (since repo commit 4a40ef6 the rejected branch of `Restart` unlocks before it
+returns); `Cfg.before4a40ef6` is the control flow before that commit, used only by the theorems labelled HISTORICAL.
 
-Three parts of the full statement are FALSE of the code (each confirmed on the real code by the harness):
-* `ops_return` — a rejected `Restart` returns with `r.mutex` locked (`ops_return_false`);
+`ops_return` is the FULL statement and holds of the code. Two other parts of the full statement are FALSE of the
+code (each confirmed on the real code by the harness):
 * `timeout_monotone` — `checkCap` lowers a count that `SetTimeoutCount` put above `timeout_cap`
   (`timeout_monotone_false`);
 * `phase_monotone_conc` — the exported `SetPhase` is an unlocked load-then-store (`phase_monotone_conc_false`).
-For each: the negation witness, the `_partial` theorem that does hold, and (for the first) the theorem for the
-repaired control flow.
+For each: the negation witness and the `_partial` theorem that does hold.
 -/
 namespace ZChain.Round
 
@@ -38,7 +37,7 @@ theorem free_returns (cfg : Cfg) (s : R) (h : Free s) (op : Op) : Returns cfg s 
   rw [step_spec, hb]
   simp
 
-/-- An operation leaves the mutex free unless it is a `Restart` of the unrepaired code in a phase ≥ Share. -/
+/-- An operation leaves the mutex free (for the historical control flow: unless it is a `Restart` in a phase ≥ Share). -/
 theorem free_preserved (cfg : Cfg) (s : R) (h : Free s) (op : Op)
     (hr : op = .restart → cfg.restartUnlocksOnReject = true ∨ s.d.phase < Share) : Free (step cfg s op).1 := by
   obtain ⟨h1, h2⟩ := h
@@ -64,17 +63,38 @@ theorem run_induction (cfg : Cfg) (s0 : R) (P : R → Prop) (h0 : P s0)
   | nil => exact h0
   | cons op ops ih => exact ih _ (hstep _ _ h0)
 
-/-- FULL STATEMENT (false of the code, see `ops_return_false`):
-`∀ s, Reachable Cfg.code s → ∀ op, Returns Cfg.code s op`.
+/-- the mutex is free in every reachable state of the code -/
+theorem reachable_free (s : R) (hs : Reachable Cfg.code s) : Free s := by
+  obtain ⟨n, c, self, ops, rfl⟩ := hs
+  exact run_induction _ _ Free ⟨rfl, rfl⟩ (fun s op h => free_preserved _ _ h _ (fun _ => Or.inl rfl)) ops
 
-**ops_return_partial**: along a history without a rejected restart (every `Restart` is issued in a phase
-before `Share`) the mutex is free after every operation and every operation returns. -/
-theorem ops_return_partial (n c : Int) (self : Nat) (ops : List Op)
+/-- **ops_return** (FULL STATEMENT): from every state reachable by any sequence of round operations, every round
+operation returns — including a rejected restart, and every operation after one. -/
+theorem ops_return (s : R) (hs : Reachable Cfg.code s) (op : Op) : Returns Cfg.code s op :=
+  free_returns _ _ (reachable_free s hs) op
+
+/-- the rejected restart of the code: it answers the error, changes nothing, and leaves the mutex free -/
+theorem rejected_restart_returns (s : R) (h : Free s) (hp : Share ≤ s.d.phase) :
+    step Cfg.code s .restart = (s, some .errComplete) := by
+  obtain ⟨h1, h2⟩ := h
+  have hp' : s.d.phase ≥ Share := hp
+  rw [step_spec]
+  simp [blocks, Op.lk, h1, h2, Op.body, Op.isRestart, hp', Cfg.code]
+  cases s; simp_all
+
+/-! ### HISTORICAL — the control flow before repo commit 4a40ef6 (`Cfg.before4a40ef6`)
+
+Kept as statements about the old control flow only: they say what the defect recorded as
+`C37:rejected-restart-leaves-mutex-locked` (now "fixed") was. Nothing below is about the code as it exists. -/
+
+/-- HISTORICAL: along a history without a rejected restart the old control flow kept the mutex free. -/
+theorem historical_ops_return_partial (n c : Int) (self : Nat) (ops : List Op)
     (hok : ∀ (pre : List Op) (post : List Op), ops = pre ++ Op.restart :: post →
-      (run Cfg.code (newRound n c self) pre).d.phase < Share) :
-    Free (run Cfg.code (newRound n c self) ops) ∧ ∀ op, Returns Cfg.code (run Cfg.code (newRound n c self) ops) op := by
+      (run Cfg.before4a40ef6 (newRound n c self) pre).d.phase < Share) :
+    Free (run Cfg.before4a40ef6 (newRound n c self) ops) ∧
+      ∀ op, Returns Cfg.before4a40ef6 (run Cfg.before4a40ef6 (newRound n c self) ops) op := by
   suffices h : ∀ (k : Nat) (pre post : List Op), pre.length = k → ops = pre ++ post →
-      Free (run Cfg.code (newRound n c self) pre) by
+      Free (run Cfg.before4a40ef6 (newRound n c self) pre) by
     have := h ops.length ops [] rfl (by simp)
     exact ⟨this, free_returns _ _ this⟩
   intro k
@@ -87,7 +107,7 @@ theorem ops_return_partial (n c : Int) (self : Nat) (ops : List Op)
     intro pre post hl hops
     have hne : pre ≠ [] := by intro h; rw [h] at hl; simp at hl
     obtain ⟨pre', op, rfl⟩ : ∃ pre' op, pre = pre' ++ [op] := ⟨pre.dropLast, pre.getLast hne, (List.dropLast_concat_getLast hne).symm⟩
-    have hpre : Free (run Cfg.code (newRound n c self) pre') :=
+    have hpre : Free (run Cfg.before4a40ef6 (newRound n c self) pre') :=
       ih pre' (op :: post) (by simp at hl; omega) (by rw [hops]; simp)
     rw [run_snoc]
     apply free_preserved _ _ hpre
@@ -95,23 +115,17 @@ theorem ops_return_partial (n c : Int) (self : Nat) (ops : List Op)
     right
     exact hok pre' post (by rw [hops, hop]; simp)
 
-/-- **ops_return_repaired**: with the one-step repair (unlock in the rejected branch of `Restart`) every
-operation returns from every reachable state — this is the full statement, for the repaired control flow. -/
-theorem ops_return_repaired (s : R) (hs : Reachable Cfg.repaired s) (op : Op) : Returns Cfg.repaired s op := by
-  obtain ⟨n, c, self, ops, rfl⟩ := hs
-  apply free_returns
-  exact run_induction _ _ Free ⟨rfl, rfl⟩ (fun s op h => free_preserved _ _ h _ (fun _ => Or.inl rfl)) ops
-
-/-- The rejected restart of the code: it answers the error, changes nothing, and leaves the write lock held. -/
-theorem rejected_restart_leaks (s : R) (h : Free s) (hp : Share ≤ s.d.phase) :
-    step Cfg.code s .restart = ({ s with mutexHeld := true }, some .errComplete) := by
+/-- HISTORICAL: the rejected restart answered the error and left the write lock held. -/
+theorem historical_rejected_restart_leaks (s : R) (h : Free s) (hp : Share ≤ s.d.phase) :
+    step Cfg.before4a40ef6 s .restart = ({ s with mutexHeld := true }, some .errComplete) := by
   obtain ⟨h1, h2⟩ := h
   have hp' : s.d.phase ≥ Share := hp
   rw [step_spec]
-  simp [blocks, Op.lk, h1, h2, Op.body, Op.isRestart, hp', Cfg.code]
+  simp [blocks, Op.lk, h1, h2, Op.body, Op.isRestart, hp', Cfg.before4a40ef6]
 
-/-- Once leaked, the lock stays held for ever: no operation of the code releases a lock it did not take. -/
-theorem leak_permanent (s : R) (h : s.mutexHeld = true) (ops : List Op) : (run Cfg.code s ops).mutexHeld = true := by
+/-- A held write lock is never released by an operation that did not take it (any control flow): this is why a
+leaked lock is permanent, and why a regression of the fix deadlocks the round. -/
+theorem leak_permanent (cfg : Cfg) (s : R) (h : s.mutexHeld = true) (ops : List Op) : (run cfg s ops).mutexHeld = true := by
   refine run_induction _ _ (fun s => s.mutexHeld = true) h ?_ ops
   intro s op h
   rw [step_spec]
@@ -120,19 +134,19 @@ theorem leak_permanent (s : R) (h : s.mutexHeld = true) (ops : List Op) : (run C
   · rename_i hb
     cases op <;> simp_all [Op.isRestart, blocks, Op.lk]
 
-/-- … and every operation that takes `r.mutex` blocks for ever. -/
-theorem leak_blocks (s : R) (h : s.mutexHeld = true) (op : Op) (hop : op.lk ≠ .none)
-    (hs : ∀ seed n, op = .setSeed seed n → s.d.seed = 0) : (step Cfg.code s op).2 = none := by
+/-- … and while it is held every operation that takes `r.mutex` blocks for ever. -/
+theorem leak_blocks (cfg : Cfg) (s : R) (h : s.mutexHeld = true) (op : Op) (hop : op.lk ≠ .none)
+    (hs : ∀ seed n, op = .setSeed seed n → s.d.seed = 0) : (step cfg s op).2 = none := by
   rw [step_spec]
   have : blocks s op = true := by
     cases op <;> simp_all [blocks, Op.lk]
   simp [this]
 
-/-- **ops_return_false** — negation witness of the full statement: after `AddNotarizedBlock; Restart` (the
-restart is rejected: the round is in phase Share) `GetVRFShares` never returns. -/
-theorem ops_return_false :
-    ∃ s, Reachable Cfg.code s ∧ ∃ op, ¬ Returns Cfg.code s op :=
-  ⟨run Cfg.code (newRound 5 1 0) [.addNotarized ⟨7, 2⟩, .restart], ⟨5, 1, 0, _, rfl⟩, .getShares, by
+/-- HISTORICAL negation witness: with the old control flow, after `AddNotarizedBlock; Restart` (rejected: the round is
+in phase Share) `GetVRFShares` never returned. -/
+theorem historical_ops_return_false :
+    ∃ s, Reachable Cfg.before4a40ef6 s ∧ ∃ op, ¬ Returns Cfg.before4a40ef6 s op :=
+  ⟨run Cfg.before4a40ef6 (newRound 5 1 0) [.addNotarized ⟨7, 2⟩, .restart], ⟨5, 1, 0, _, rfl⟩, .getShares, by
     unfold Returns; decide⟩
 
 /-- a blocked call has no effect on the round at all -/
@@ -452,8 +466,9 @@ example : Free (run Cfg.code (newRound 5 1 0) [.addShare 1 2, .addNotarized ⟨7
 example : (run Cfg.code (newRound 5 1 0) [.addShare 1 2, .addNotarized ⟨7, 2⟩]).d.phase = Share := by decide
 example : (run Cfg.code (newRound 5 0 0) [.addShare 1 2, .addShare 1 2, .addShare 2 2, .addShare 3 2]).d.shares = [1, 2] := by decide
 example : isFinalizedF (run Cfg.code (newRound 5 0 0) [.setFinalizing, .finalize ⟨3, 0⟩]).d = true := by decide
-example : (step Cfg.code (run Cfg.code (newRound 5 1 0) [.addNotarized ⟨7, 2⟩, .restart]) .getShares).2 = none := by decide
-example : (step Cfg.repaired (run Cfg.repaired (newRound 5 1 0) [.addNotarized ⟨7, 2⟩, .restart]) .getShares).2 = some (.keys []) := by decide
+example : (step Cfg.before4a40ef6 (run Cfg.before4a40ef6 (newRound 5 1 0) [.addNotarized ⟨7, 2⟩, .restart]) .getShares).2 = none := by decide
+example : (step Cfg.code (run Cfg.code (newRound 5 1 0) [.addNotarized ⟨7, 2⟩, .restart]) .getShares).2 = some (.keys []) := by decide
+example : (step Cfg.code (run Cfg.code (newRound 5 1 0) [.addNotarized ⟨7, 2⟩]) .restart).2 = some .errComplete := by decide
 example : (run Cfg.code (newRound 5 0 2) [.addVote 4 1, .incTimeout 9 [2, 1, 0]]).d.tcount = 4 := by decide
 
 end ZChain.Round
